@@ -2,6 +2,7 @@
 import re
 from check import Property
 from props import nodeutil as nu
+from props import joinutil as ju
 
 MODES = ["tun-router", "tap-switch", "tap-hub", "tun-normal", "tap-normal"]
 
@@ -62,6 +63,10 @@ class C10(Property):
             s.add("W.1.77.%s" % bytes([0] + [rng.getrandbits(8) for _ in range(40)]).hex(), "O.1")
             s.add("S.1", "S.2")
             out.append(s.line())
+        # a node joins a learning mesh: frames for learned destinations keep going to ONE peer (the datagrams per interface read equal
+        # the number of selected peers), and plain datagrams from an address with an unfinished handshake never reach the interface
+        out += ju.join_cases(rng, 40 if thorough else 8)
+        out += ju.pending_plain_cases(rng, 80 if thorough else 16)
         return out
 
     def model_line(self, line, impl_out):
@@ -82,6 +87,8 @@ class C10(Property):
         outs = impl_out.split()
         if len(ops) != len(outs):
             return "driver returned %d results for %d ops" % (len(outs), len(ops))
+        if ju.family(line):
+            return ju.oracle(line, impl_out)
         nnodes = sum(1 for t in ops if t.startswith("N."))
         ntoks = [t.split(".") for t in ops if t.startswith("N.")]
         mode = ntoks[0][2]
